@@ -368,13 +368,15 @@ func (b *Board) CanEnPassant(to Square) bool {
 	shift := shifts[b.STM]
 	king := b.Pieces[King] & them
 	dest := BitBoard(1) << (to - shift)
+	// the double pushing pawn has not been moved yet, it still stands on its origin square
+	origin := BitBoard(1) << (to - 2*shift)
 
 	// pawns that are able to en-passant
 	ables := ((target & ^AFileBB >> 1) | (target & ^HFileBB << 1)) & b.Pieces[Pawn] & them
 	for ; ables != 0; ables &= ables - 1 {
 		able := ables & -ables
 		// remove the pawns from the occupancy
-		occ := (b.Colors[White] | b.Colors[Black] | dest) &^ (target | able)
+		occ := (b.Colors[White] | b.Colors[Black] | dest) &^ (target | able | origin)
 		if !b.IsAttacked(b.STM, occ, king) {
 			return true
 		}
